@@ -62,7 +62,10 @@ def modP : P Modifier := do
 def tblP : P (Option Table) := do
   match (← tok) with
   | "x" => pure none
-  | "T" => do pure (some (← counted str))
+  | "T" => do pure (some ⟨← counted str, 0⟩)
+  | "TD" => do
+    let d ← num
+    pure (some ⟨← counted str, d⟩)
   | _ => failure
 
 def itemP {ρ} (rr : P (Option ρ)) : P (Item ρ) := do
